@@ -173,7 +173,7 @@ class Pipeline:
         return self.once(key, build)
 
     # ---- CBMC
-    def cbmc_cmd(self, q, meta, witness, backend, trace=False, prop=None):
+    def cbmc_cmd(self, q, meta, witness, backend, trace=False, prop=None, extra=()):
         d = meta['dir']
         cmd = ['cbmc', os.path.join(d, 'module.c'), os.path.join(VT, 'stubs', 'base.c')]
         cmd += [os.path.join(VT, 'stubs', s) for s in q.stubs]
@@ -195,7 +195,7 @@ class Pipeline:
         elif backend == 'kissat': cmd += ['--external-sat-solver', 'kissat']
         elif backend == 'minisat': pass
         else: raise ValueError(backend)
-        cmd += list(q.extra_cbmc)
+        cmd += list(q.extra_cbmc) + list(extra)
         return cmd
 
     @staticmethod
@@ -233,18 +233,18 @@ class Pipeline:
         if res['status'] == 'error' and 'out of memory' in res['note'].lower(): res['status'] = 'memout'
         return res
 
-    def run_cbmc(self, q, meta, witness, trace=False, prop=None, timeout=None):
+    def run_cbmc(self, q, meta, witness, trace=False, prop=None, timeout=None, extra=()):
         """race the configured back ends; first verdict wins"""
         backends = q.backends if not witness else q.backends[:1]
         if len(backends) == 1:
-            r = sh(self.cbmc_cmd(q, meta, witness, backends[0], trace, prop), timeout=timeout or q.timeout, mem_gb=q.mem_gb)
+            r = sh(self.cbmc_cmd(q, meta, witness, backends[0], trace, prop, extra), timeout=timeout or q.timeout, mem_gb=q.mem_gb)
             res = self.parse_cbmc(r); res['backend'] = backends[0]
             return res
         results = {}
         done = threading.Event()
         procs = []
         def one(b):
-            r = sh(self.cbmc_cmd(q, meta, witness, b, trace, prop), timeout=timeout or q.timeout, mem_gb=q.mem_gb)
+            r = sh(self.cbmc_cmd(q, meta, witness, b, trace, prop, extra), timeout=timeout or q.timeout, mem_gb=q.mem_gb)
             res = self.parse_cbmc(r); res['backend'] = b
             results[b] = res
             if res['status'] in ('success', 'failure'): done.set()
@@ -322,21 +322,40 @@ class Pipeline:
             return rec
         return self.once(key, run)
 
+    def stub_sites(self):
+        def build():
+            out = {}
+            d = os.path.join(VT, 'stubs')
+            for fn in os.listdir(d):
+                if not fn.endswith('.c'): continue
+                for i, ln in enumerate(open(os.path.join(d, fn)), 1):
+                    m = re.search(r'(\w+)\s*=\s*(nondet_\w+)\(\)', ln)
+                    if m: out[(fn, i, m.group(1))] = m.group(2)
+            return out
+        return self.once(('stub_sites',), build)
+
     def extract_inputs(self, meta, trace):
-        sites = {(s['line'], s['var']): s['fn'] for s in meta['nondet_sites']}
+        sites = {('module.c', s['line'], s['var']): s['fn'] for s in meta['nondet_sites']}
+        sites.update(self.stub_sites())
         vals = []
+        lastkey = None; lastdecl = False
         for st in trace:
-            if st.get('stepType') != 'assignment': continue
+            if st.get('stepType') != 'assignment':
+                if st.get('stepType') in ('function-call', 'function-return'): lastkey = None
+                continue
             loc = st.get('sourceLocation', {})
-            if not loc.get('file', '').endswith('module.c'): continue
             try: ln = int(loc.get('line', '0'))
             except ValueError: continue
-            k = (ln, st.get('lhs'))
+            k = (os.path.basename(loc.get('file', '')), ln, st.get('lhs'))
             if k in sites:
                 v = st.get('value', {})
                 b = v.get('binary')
                 if b is None: continue
-                vals.append((sites[k], int(b, 2)))
+                if vals and lastkey == k and st.get('assignmentType') != 'actual-parameter' and lastdecl:
+                    vals[-1] = (sites[k], int(b, 2))      # declaration-with-initialiser shows up as two steps
+                else:
+                    vals.append((sites[k], int(b, 2)))
+                lastkey = k; lastdecl = not lastdecl if False else True
         return vals
 
     def replay(self, q, meta, inputs, outdir, asan=False):
@@ -410,6 +429,25 @@ class Pipeline:
                 self.confirm(q, meta, rec, real, replay_root)
         else:
             rec['verdict'] = 'error'; rec['error'] = (r.get('note') or '')[-1500:]
+        if rec['verdict'] == 'spurious' and q.uf:
+            # the abstract (uninterpreted float ops) query failed and its counterexample does not replay: search for a real
+            # counterexample with exact float semantics (finding one is much cheaper than proving absence)
+            import copy as _copy
+            q2 = _copy.copy(q); q2.uf = (); q2.validate = False
+            try:
+                meta2 = self.module(q2)
+                r2 = self.run_cbmc(q2, meta2, witness=False, timeout=q.timeout)
+                rec['exact_fallback'] = dict(status=r2['status'], secs=r2['secs'])
+                if r2['status'] == 'failure':
+                    real2 = [p for p in r2['props'] if p['status'] == 'FAILURE' and '.unwind.' not in p['property']]
+                    rec2 = dict(confirmed=[], spurious=[], unconfirmed=[])
+                    self.confirm(q2, meta2, rec2, real2, replay_root)
+                    if rec2.get('confirmed'):
+                        rec['verdict'] = 'violation'; rec['confirmed'] = rec2['confirmed']; rec['note'] += ' (counterexample found by the exact-arithmetic fallback query)'
+                elif r2['status'] == 'success':
+                    rec['verdict'] = 'holds'; rec['note'] += ' (abstract query failed spuriously; exact-arithmetic query proved the assertions)'
+            except BuildError as e:
+                rec['exact_fallback'] = dict(status='build-error')
         if q.validate and rec['verdict'] in ('holds', 'candidate', 'violation', 'known', 'spurious'):
             try:
                 rec['translator_validation'] = self.validate_translation(q, meta)
@@ -443,7 +481,18 @@ class Pipeline:
             item = dict(property=p['property'], description=desc, replay=outdir,
                         inputs=[(fn, hex(v)) for fn, v in inputs[:40]])
             if 'STUB-DIVERGENCE' in out:
-                item['why'] = 'counterexample relies on a stub value the real function does not return'; spurious.append(item)
+                # second attempt: restrict contract stubs to the region where they pin the real value exactly
+                tr2 = self.run_cbmc(q, meta, witness=False, trace=True, prop=p['property'], timeout=q.timeout * 2, extra=('-DVT_STUB_EXACT_REGION',))
+                tp2 = [x for x in tr2['props'] if x['property'] == p['property'] and x['status'] == 'FAILURE' and 'trace' in x]
+                ok2 = False
+                if tp2:
+                    inputs2 = self.extract_inputs(meta, tp2[0]['trace'])
+                    rr2 = self.replay(q, meta, inputs2, outdir, asan=is_mem)
+                    if 'STUB-DIVERGENCE' not in rr2['out'] and 'DESYNC' not in rr2['out'] and ('\nA 0 ' + desc) in ('\n' + rr2['out']):
+                        item['inputs'] = [(fn, hex(v)) for fn, v in inputs2[:40]]; item['note'] = 'found in the exact region of the contract stubs'
+                        confirmed.append(item); ok2 = True
+                if not ok2:
+                    item['why'] = 'counterexample relies on a stub value the real function does not return'; spurious.append(item)
             elif 'DESYNC' in out:
                 item['why'] = 'replay desynchronised'; spurious.append(item)
             elif is_mem:
